@@ -121,7 +121,7 @@ func (sc *EvoScenario) construct() (*genetics.Population, error) {
 	}
 }
 
-// assignFitness sets finite non-negative fitness values (bounded by 1e12) of given shape
+// assignFitness sets finite non-negative fitness values of given shape (all but the huge shape bounded by 1e12)
 func assignFitness(r *rand.Rand, shape, gen int, pop *genetics.Population) {
 	n := len(pop.Organisms)
 	dom := 0
